@@ -41,6 +41,14 @@ def make_peers(tb, rnd, tier):
     add(['diffie-hellman-group14-sha256', 'diffie-hellman-group-exchange-sha256', 'diffie-hellman-group-exchange-sha1'], ['ssh-ed25519'],
         ['aes128-ctr'], ['hmac-sha2-256'], dict(ed), {'diffie-hellman-group-exchange-sha256': 2048, 'diffie-hellman-group-exchange-sha1': 2048},
         banner='Generic_1.0')
+    # group sizes that differ between the two group-exchange methods (RFC 4419 leaves the choice of group to the server, per request): each
+    # method's size is measured, recorded and compared on its own
+    add(['curve25519-sha256', 'diffie-hellman-group-exchange-sha1', 'diffie-hellman-group-exchange-sha256'], ['ssh-ed25519'],
+        ['aes128-ctr'], ['hmac-sha2-256'], dict(ed), {'diffie-hellman-group-exchange-sha256': 3072, 'diffie-hellman-group-exchange-sha1': 2048},
+        banner='Generic_1.0')
+    add(['diffie-hellman-group-exchange-sha256', 'diffie-hellman-group-exchange-sha1', 'curve25519-sha256'], ['ssh-ed25519'],
+        ['aes128-ctr'], ['hmac-sha2-256'], dict(ed), {'diffie-hellman-group-exchange-sha256': 2048, 'diffie-hellman-group-exchange-sha1': 4096},
+        banner='Generic_1.0')
     # a server that enforces the requested group-exchange range strictly (refuses the opening 512..1536 request)
     add(['curve25519-sha256', 'diffie-hellman-group-exchange-sha256'], ['rsa-sha2-512', 'ssh-ed25519'], ['aes128-ctr'], ['hmac-sha2-256'],
         dict(ed, **rsa(['rsa-sha2-512', 'rsa-sha2-256', 'ssh-rsa'], 3072)), {'diffie-hellman-group-exchange-sha256': 3072})
